@@ -42,89 +42,96 @@ def fam_class():
             def __init__(self, prm, dtype):
                 super().__init__()
                 for kx in FAM_KEYS:
-                    self.register_buffer("p_" + kx, torch.tensor(prm[kx], dtype=dtype))
-                self.nonlin_f = any(v != 0 for v in prm["af"])
-                self.nonlin_g = any(v != 0 for v in prm["ag"])
+                    self.register_buffer("vfh13_p_" + kx, torch.tensor(prm[kx], dtype=dtype))
+                self.vfh13_nonlin_f = any(v != 0 for v in prm["af"])
+                self.vfh13_nonlin_g = any(v != 0 for v in prm["ag"])
 
-            tmod = 0          # > 0: the system uses the time only through the exact integer / float remainder t % tmod
+            vfh13_tmod = 0          # > 0: the system uses the time only through the exact integer / float remainder t % vfh13_tmod
 
-            def _tt(self, t):
+            def vfh13_tt(self, t):
                 base = self.systime if t is None else t
-                return base % self.tmod if self.tmod else base
+                return base % self.vfh13_tmod if self.vfh13_tmod else base
 
             def state_transition(self, state, input, t=None):
-                if getattr(self, "fail_next", "") == "f":       # a user callback that raises once (error-path atomicity),
-                    self.fail_skip = getattr(self, "fail_skip", 0) - 1      # at its `fail_skip`-th evaluation from now
-                    if self.fail_skip < 0:
-                        self.fail_next = ""
+                if getattr(self, "vfh13_fail_next", "") == "f":       # a user callback that raises once (error-path atomicity),
+                    self.vfh13_fail_skip = getattr(self, "vfh13_fail_skip", 0) - 1      # at its `vfh13_fail_skip`-th evaluation from now
+                    if self.vfh13_fail_skip < 0:
+                        self.vfh13_fail_next = ""
                         raise RuntimeError("user state_transition failed")
-                z = state @ self.p_A0.mT + input @ self.p_B0.mT + self.p_c1 + self._tt(t) * self.p_tf
-                if self.nonlin_f:
-                    z = z + self.p_af * torch.sin(state @ self.p_Wf.mT + input @ self.p_Vf.mT + self.p_phf)
+                z = state @ self.vfh13_p_A0.mT + input @ self.vfh13_p_B0.mT + self.vfh13_p_c1 + self.vfh13_tt(t) * self.vfh13_p_tf
+                if self.vfh13_nonlin_f:
+                    z = z + self.vfh13_p_af * torch.sin(state @ self.vfh13_p_Wf.mT + input @ self.vfh13_p_Vf.mT + self.vfh13_p_phf)
                 return z
 
             def observation(self, state, input, t=None):
-                if getattr(self, "fail_next", "") == "g":
-                    self.fail_skip = getattr(self, "fail_skip", 0) - 1
-                    if self.fail_skip < 0:
-                        self.fail_next = ""
+                if getattr(self, "vfh13_fail_next", "") == "g":
+                    self.vfh13_fail_skip = getattr(self, "vfh13_fail_skip", 0) - 1
+                    if self.vfh13_fail_skip < 0:
+                        self.vfh13_fail_next = ""
                         raise RuntimeError("user observation failed")
-                z = state @ self.p_C0.mT + input @ self.p_D0.mT + self.p_c2 + self._tt(t) * self.p_tg
-                if self.nonlin_g:
-                    z = z + self.p_ag * torch.sin(state @ self.p_Wg.mT + input @ self.p_Vg.mT + self.p_phg)
+                z = state @ self.vfh13_p_C0.mT + input @ self.vfh13_p_D0.mT + self.vfh13_p_c2 + self.vfh13_tt(t) * self.vfh13_p_tg
+                if self.vfh13_nonlin_g:
+                    z = z + self.vfh13_p_ag * torch.sin(state @ self.vfh13_p_Wg.mT + input @ self.vfh13_p_Vg.mT + self.vfh13_p_phg)
                 return z
 
         class SubFam(FamNLS):
-            """a user's subclass of a user's system: overrides `observation` (adds a constant offset `delta`)"""
-            delta = None
+            """a user's subclass of a user's system: overrides `observation` (adds a constant offset `vfh13_delta`)"""
+            vfh13_delta = None
 
             def observation(self, state, input, t=None):
-                return super().observation(state, input, t) + self.delta
+                return super().observation(state, input, t) + self.vfh13_delta
 
         class AliasFam(FamNLS):
             """user callbacks that return their ARGUMENT, a VIEW of it or a stored buffer (direct / partial state measurement
             written as indexing, identity transition, input pass-through, constant transition from a buffer). The parameters
             of the family are set to the same affine maps, so model and references are unchanged — only the memory differs."""
-            f_mode = "affine"
-            g_mode = "affine"
+            vfh13_f_mode = "affine"
+            vfh13_g_mode = "affine"
 
             def state_transition(self, state, input, t=None):
-                if self.f_mode == "affine" or getattr(self, "fail_next", ""):
+                if self.vfh13_f_mode == "affine" or getattr(self, "vfh13_fail_next", ""):
                     return super().state_transition(state, input, t)
-                if self.f_mode == "state":
+                if self.vfh13_f_mode == "state":
                     return state
-                if self.f_mode == "input":
+                if self.vfh13_f_mode == "input":
                     return input if input.shape == state.shape else input.expand_as(state)
-                return self.p_c1.expand_as(state)            # "buffer"
+                return self.vfh13_p_c1.expand_as(state)            # "buffer"
 
             def observation(self, state, input, t=None):
-                if self.g_mode == "affine" or getattr(self, "fail_next", ""):
+                if self.vfh13_g_mode == "affine" or getattr(self, "vfh13_fail_next", ""):
                     return super().observation(state, input, t)
-                if self.g_mode == "state":
+                if self.vfh13_g_mode == "state":
                     return state
-                return state[..., :self.p_c2.shape[0]]        # "state-view"
+                return state[..., :self.vfh13_p_c2.shape[0]]        # "state-view"
 
         class PropJacFam(FamNLS):
             """a user's subclass that overrides the PROPERTIES `A`, `C` of NLS with its analytic Jacobians (instead of autograd)"""
 
-            def _jac(self, M0, a, W, V, ph):
-                arg = self._ref_state @ W.mT + self._ref_input @ V.mT + ph
+            def set_refpoint(self, state=None, input=None, t=None):
+                # public API only: the user remembers the linearisation point it is given (None = most recent state / input)
+                out = super().set_refpoint(state=state, input=input, t=t)
+                self.vfh13_xref = torch.atleast_1d(self.state if state is None else state).detach().clone()
+                self.vfh13_uref = torch.atleast_1d(self.input if input is None else input).detach().clone()
+                return out
+
+            def vfh13_jac(self, M0, a, W, V, ph):
+                arg = self.vfh13_xref @ W.mT + self.vfh13_uref @ V.mT + ph
                 return M0 + (a * torch.cos(arg)).unsqueeze(-1) * W
 
             @property
             def A(self):
-                return self._jac(self.p_A0, self.p_af, self.p_Wf, self.p_Vf, self.p_phf)
+                return self.vfh13_jac(self.vfh13_p_A0, self.vfh13_p_af, self.vfh13_p_Wf, self.vfh13_p_Vf, self.vfh13_p_phf)
 
-            dC = None      # the user's own choice: measurement matrix = analytic Jacobian + dC (e.g. a deliberate approximation)
+            vfh13_dC = None      # the user's own choice: measurement matrix = analytic Jacobian + vfh13_dC (e.g. a deliberate approximation)
 
             @property
             def C(self):
-                J = self._jac(self.p_C0, self.p_ag, self.p_Wg, self.p_Vg, self.p_phg)
-                return J if self.dC is None else J + self.dC
+                J = self.vfh13_jac(self.vfh13_p_C0, self.vfh13_p_ag, self.vfh13_p_Wg, self.vfh13_p_Vg, self.vfh13_p_phg)
+                return J if self.vfh13_dC is None else J + self.vfh13_dC
 
-        FamNLS.PropJac = PropJacFam
-        FamNLS.Alias = AliasFam
-        FamNLS.Sub = SubFam
+        FamNLS.vfh13_PropJac = PropJacFam
+        FamNLS.vfh13_Alias = AliasFam
+        FamNLS.vfh13_Sub = SubFam
         _FAM_CLASS = FamNLS
     return _FAM_CLASS
 
